@@ -45,6 +45,15 @@ def scratch_copy():
     return d
 
 
+def apply_patch(root, patch_rel):
+    """variant given as a unified diff (relative to selftest/): applied with patch -p1 (tolerates line offsets)"""
+    pf = os.path.join(HERE, 'selftest', patch_rel)
+    r = subprocess.run(['patch', '-p1', '-s', '--fuzz=3', '-i', pf], cwd=root, stdout=subprocess.PIPE, stderr=subprocess.STDOUT, text=True)
+    if r.returncode != 0:
+        return 'patch does not apply: %s' % r.stdout.strip().splitlines()[-1:]
+    return None
+
+
 def apply_edits(root, edits):
     for e in edits:
         p = os.path.join(root, e['file'])
@@ -70,7 +79,9 @@ def run_check(prop, root, tier='quick'):
 def run_mutant(m, verbose=False):
     root = scratch_copy()
     try:
-        err = apply_edits(root, m['edits'])
+        err = apply_edits(root, m.get('edits', []))
+        if not err and m.get('patch'):
+            err = apply_patch(root, m['patch'])
         if err:
             return False, 'STALE: ' + err
         rc, out = run_check(m['property'], root, m.get('tier', 'quick'))
